@@ -236,6 +236,17 @@ def focused(tier):
         ("schedule resume + blocking", [node(c={"sched": {"numbers": [1, 0], "ends": [2.0, 3.0], "preempt": "restart"}}), node(c=1, cap=0)],
          {"A": klass([ARR, None], [[1.0, 0.5], [2.0, 1.0]], route=matrix([[0.0, 1.0], [0.0, 0.0]])),
           "B": klass([None, {"values": [1.0, 2.0], "budget": 1}], [[1.0, 0.5], [2.0, 1.0]], route=matrix([[0.0, 0.0], [0.0, 0.0]]))}, 9.0),
+        ("two class changes in one visit (timed, then after service)", [node(c=1, class_change={"A": {"A": 1.0, "B": 0.0, "C": 0.0}, "B": {"A": 0.0, "B": 0.0, "C": 1.0}, "C": {"A": 0.0, "B": 0.0, "C": 1.0}}), node(c=1)],
+         {"A": klass([{"values": [0.5, 0.25], "budget": 2}, None], [[3.0, 2.0], [1.0]], route=matrix([[0.0, 1.0], [0.0, 0.0]]), cct={"B": [0.5, 1.0]}),
+          "B": klass([None, None], [[3.0, 2.0], [1.0]], route=matrix([[0.0, 1.0], [0.0, 0.0]])),
+          "C": klass([None, None], [[3.0, 2.0], [1.0]], route=matrix([[0.0, 1.0], [0.0, 0.0]]))}, 12.0),
+        ("ageing A>B>C while waiting", [node(c=1), node(c=1)],
+         {"A": klass([{"values": [0.5, 0.25], "budget": 3}, None], [[6.0, 2.0], [1.0]], route=matrix([[0.0, 1.0], [0.0, 0.0]]), prio=2, cct={"B": [0.5, 1.0]}),
+          "B": klass([None, None], [[6.0, 2.0], [1.0]], route=matrix([[0.0, 1.0], [0.0, 0.0]]), prio=1, cct={"C": [0.5, 1.5]}),
+          "C": klass([None, None], [[6.0, 2.0], [1.0]], route=matrix([[0.0, 1.0], [0.0, 0.0]]), prio=0)}, 12.0),
+        ("schedule zero shift + class change while waiting", [node(c={"sched": {"numbers": [0, 1], "ends": [2.0, 6.0], "preempt": False}}), node(c=1)],
+         {"A": klass([{"values": [0.5, 1.0], "budget": 2}, None], [[0.5, 1.0], [1.0]], route=matrix([[0.0, 1.0], [0.0, 0.0]]), cct={"B": [3.0, 1.0]}),
+          "B": klass([None, None], [[0.5, 1.0], [1.0]], route=matrix([[0.0, 1.0], [0.0, 0.0]]))}, 10.0),
         ("batches with rejection", [node(c=1, cap=1), node(c=1)],
          {"A": klass([ARR, None], [[2.0, 1.0], [1.0]], batch=[[2, 1, 0], None], route=matrix([[0.0, 0.5], [0.0, 0.0]])),
           "B": klass([None, {"values": [1.0, 2.0], "budget": 1}], [[2.0, 1.0], [1.0]], batch=[None, None], route=matrix([[0.0, 0.0], [0.0, 0.0]]))}, 10.0),
@@ -243,6 +254,11 @@ def focused(tier):
     for nm, nodes, classes, T in nets:
         for tr in TRACKERS:
             tn = tr if isinstance(tr, str) else "%s%s" % (tr[0], list(tr[1].values())[0])
+            if nm in ("two class changes in one visit (timed, then after service)", "ageing A>B>C while waiting",
+                      "schedule zero shift + class change while waiting") and not tn.startswith(("NodeClassMatrix", "NodePopulation", "SystemPopulation")):
+                continue
+            if tn.startswith("NodeClassMatrix[") and len(classes) == 3:
+                tr = ["NodeClassMatrix", {"class_ordering": ["C", "A", "B"]}]
             if tier == "quick" and nm in ("pre-emptive priorities reroute", "schedule reroute", "schedule resume + blocking") and tn not in (
                     "SystemPopulation", "NodePopulation", "NaiveBlocking", "NodeClassMatrix", "MatrixBlocking"):
                 continue
